@@ -262,6 +262,16 @@ class Tr:
             if any(t != ts[0] for t in ts):
                 raise Untranslatable(f"heterogeneous list {src}")
             return bs, "[" + ", ".join(cs) + "]", ("List", ts[0])
+        if isinstance(node, ast.Set):
+            # {a, b, …}: a set display; sets are lists without repetition, in insertion order
+            bs, c = [], "([] : List Nat)"
+            for el in node.elts:
+                b, ce, t = self.E(el, env)
+                if t != "Obj":
+                    raise Untranslatable(f"set display with an element of type {t}: {src}")
+                bs += b
+                c = f"(Py.setAdd {c} {ce})"
+            return bs, c, ("Set", "Obj")
         if isinstance(node, ast.Attribute) and node.attr in self.attrs and not (
                 isinstance(node.value, ast.Name) and node.value.id == "self" and ("self_" + node.attr) in env):
             b, c, t = self.E(node.value, env)
@@ -472,7 +482,7 @@ class Tr:
             return b, f"(List.reverse {c})", t
         if fn in ("len",):
             b, c, t = self.E(node.args[0], env)
-            if not (isinstance(t, tuple) and t[0] in ("List", "Dict")):
+            if not (isinstance(t, tuple) and t[0] in ("List", "Dict", "Set")):
                 raise Untranslatable(f"len of {t}")
             return b, f"(Py.len {c})", "Int"
         if fn in ("min", "max"):
@@ -1647,6 +1657,10 @@ def driver_source(specs, status, src_root):
             imports.append("import FinamModel.Translated.collect_adapters")
             cases.append('  | "collect_adapters" => toJ (Tr.collect_adapters (heapOfJson (argAt args 0)) (fromJ (argAt args 1)) [])')
         for n in ("check_input_connected", "check_dead_links", "check_branching"):
+            if status.get(n, {}).get("translated"):
+                imports.append(f"import FinamModel.Translated.{n}")
+                cases.append(f'  | "{n}" => toJ (Tr.{n} (heapOfJson (argAt args 0)) (fromJ (argAt args 1)))')
+        for n in ("collect_inputs_outputs", "check_missing_components"):
             if status.get(n, {}).get("translated"):
                 imports.append(f"import FinamModel.Translated.{n}")
                 cases.append(f'  | "{n}" => toJ (Tr.{n} (heapOfJson (argAt args 0)) (fromJ (argAt args 1)))')
